@@ -351,6 +351,7 @@ type Stats struct {
 	Levels      []int
 	Wall        float64
 	Samples     [][]string
+	ForeignEx   []Violation
 }
 
 type proc struct {
@@ -489,6 +490,9 @@ func Explore(sc *Scenario, exe string, workerArgs []string, nWorkers int, deadli
 							viol = append(viol, Violation{Scen: sc.ID, Path: append(append([]string{}, it.path...), "<drain>"), Hit: h})
 						} else {
 							st.Foreign[h.Rule]++
+							if len(st.ForeignEx) < 8 {
+								st.ForeignEx = append(st.ForeignEx, Violation{Scen: sc.ID, Path: append(append([]string{}, it.path...), "<drain>"), Hit: h})
+							}
 						}
 					}
 					for _, s := range res.Succ {
@@ -509,16 +513,15 @@ func Explore(sc *Scenario, exe string, workerArgs []string, nWorkers int, deadli
 									viol = append(viol, Violation{Scen: sc.ID, Path: path, Hit: h})
 								} else {
 									st.Foreign[h.Rule]++
+									if len(st.ForeignEx) < 8 {
+										st.ForeignEx = append(st.ForeignEx, Violation{Scen: sc.ID, Path: path, Hit: h})
+									}
 								}
 							}
 							continue // never explore beyond a disagreement
 						}
 						if !seen[s.Key] {
-							seen[s.Key] = true
 							next = append(next, item{path, s.Key})
-							if len(st.Samples) < 3 || (len(path) == sc.Depth && len(st.Samples) < 6) {
-								st.Samples = append(st.Samples, path)
-							}
 						}
 					}
 					mu.Unlock()
@@ -527,8 +530,19 @@ func Explore(sc *Scenario, exe string, workerArgs []string, nWorkers int, deadli
 		}
 		wg.Wait()
 		// deterministic order of the next level regardless of worker timing
+		// (the representative of a state is its lexicographically smallest path)
 		sort.Slice(next, func(i, j int) bool { return strings.Join(next[i].path, "\x00") < strings.Join(next[j].path, "\x00") })
-		frontier = next
+		frontier = frontier[:0:0]
+		for _, it := range next {
+			if seen[it.key] {
+				continue
+			}
+			seen[it.key] = true
+			frontier = append(frontier, it)
+			if len(st.Samples) < 3 || (len(it.path) == sc.Depth && len(st.Samples) < 6) {
+				st.Samples = append(st.Samples, it.path)
+			}
+		}
 		if !st.Exhaustive {
 			break
 		}
